@@ -355,6 +355,24 @@ func collect(n ast.Node, info *types.Info, lits []*ast.FuncLit, writes map[ast.E
 					}
 				}
 			}
+		case *ast.StarExpr:
+			// whole-struct read or write through a pointer (e.g. fCopy := *v.Func):
+			// an access to every field
+			if t := info.TypeOf(e); t != nil {
+				if tn := namedOf(t); sharedTypes[tn] {
+					if _, isPtr := t.(*types.Pointer); !isPtr {
+						if st, ok := t.Underlying().(*types.Struct); ok {
+							for i := 0; i < st.NumFields(); i++ {
+								fld := st.Field(i)
+								if fld.Embedded() {
+									continue
+								}
+								*out = append(*out, acc{tn + "." + fld.Name(), &ast.SelectorExpr{X: e.X, Sel: ast.NewIdent(fld.Name())}, writes[e]})
+							}
+						}
+					}
+				}
+			}
 		case *ast.SelectorExpr:
 			if cls, ok := sharedSelector(e, info); ok {
 				*out = append(*out, acc{cls, e, writes[e]})
@@ -519,6 +537,9 @@ func addressable(e ast.Expr, info *types.Info) bool {
 	case *ast.SelectorExpr:
 		tv, ok := info.Types[x.X]
 		if !ok {
+			return false
+		}
+		if tv.Type == nil {
 			return false
 		}
 		if _, ok := tv.Type.Underlying().(*types.Pointer); ok {
